@@ -154,3 +154,21 @@ func vxCheckMulti(res []*Log, N, per int) {
 		last[p] = i
 	}
 }
+
+// H20.burst: more Log calls than the logger's queue holds, issued back to back: logging may wait, it never drops.
+func vxH20Burst(N int, n int) {
+	l := NewLogger(N)
+	var logged []vxLogRec
+	for i := 0; i < n; i++ {
+		r := vxLogRec{id: i, owner: 1 + i%2, typ: 1 + (i/2)%2}
+		logged = append(logged, r)
+		l.Log(r.id, vxOwnerVal(r.owner), r.typ)
+	}
+	vxQuiesce()
+	owner := vxChoose("fowner", 3)
+	typ := vxInt("ftype")
+	vxAssume(vxAll(typ >= 0, typ <= 2))
+	res := l.Filter(vxOwnerVal(owner), typ)
+	vxCheckFilter(res, logged, owner, typ, N, true)
+	vxReach("final")
+}
